@@ -21,7 +21,8 @@ THEOREMS['C05'] = ['FB.run_refines', 'FB.replay_sound', 'FB.C13_read_replay', 'F
                    'FB.CreatedFiles.finished_full', 'FB.CreatedFiles.error_full', 'FB.CreatedFiles.hasDir_iff',
                    'FB.replay_simple_complete', 'FB.leaf_run_replays', 'FB.C05_leaf_file_reused_partial', 'FB.C05_leaf_sub_reused_partial',
                    'FB.flat_second_run', 'FB.flat_keeps', 'FB.lookupFile_hit',
-                   'FB.C05_flat_rebuild', 'FB.preClean_recovers', 'FB.cachedIn_first', 'FB.flat_ok_run', 'FB.flat_first_facts']
+                   'FB.C05_flat_rebuild', 'FB.preClean_recovers', 'FB.cachedIn_first', 'FB.flat_ok_run', 'FB.flat_first_facts',
+                   'FB.flat_rerun', 'FB.leaf_lockstep', 'FB.rerunInvs_ok']
 THEOREMS['C06'] = ['FB.C06_changed_invalidates', 'FB.C06_changed_invalidatesL', 'FB.C06_lookup_tests_version',
                    'FB.C06_equal_versions_pass']
 THEOREMS['C08'] = ['FB.C08_dup_file_rejected', 'FB.C08_dup_file_no_effect', 'FB.C08_dup_sub_no_effect',
